@@ -14,7 +14,7 @@ import (
 // C20 - an experiment run follows its trial / generation protocol exactly.
 
 type c20Fault struct {
-	Kind string `json:"kind"` // none | eval_error | cancel_in_eval | cancel_in_epoch_evaluated | cancel_in_trial_started | cancel_in_trial_finished | cancel_mid_epoch
+	Kind string `json:"kind"` // eval_error_solved (the evaluator flags the generation solved and returns an error) | none | eval_error | cancel_in_eval | cancel_in_epoch_evaluated | cancel_in_trial_started | cancel_in_trial_finished | cancel_mid_epoch
 	R    int    `json:"trial"`
 	G    int    `json:"generation"`
 }
@@ -26,6 +26,9 @@ type c20Case struct {
 	Observer bool     `json:"observer"`
 	Parallel bool     `json:"parallel"`
 	Fault    c20Fault `json:"fault"`
+	// Prealloc: 0 - Experiment.Trials is nil (fresh experiment); 1 - the caller allocated exactly NumRuns entries; 2 - the experiment
+	// object is reused after a longer run: Trials holds NumRuns+2 stale entries
+	Prealloc int `json:"prealloc,omitempty"`
 }
 
 var c20CaseCache = map[string][]c20Case{}
@@ -57,6 +60,9 @@ func c20Enumerate(tier string) []c20Case {
 					for _, par := range []bool{false, true} {
 						cases = append(cases, c20Case{Runs: R, Gens: G, SolvedAt: solved, Observer: obs, Parallel: par, Fault: c20Fault{Kind: "none"}})
 					}
+					// the experiment object as the caller may hand it over: Trials pre-allocated, or left from an earlier longer run
+					cases = append(cases, c20Case{Runs: R, Gens: G, SolvedAt: solved, Observer: obs, Fault: c20Fault{Kind: "none"}, Prealloc: 1})
+					cases = append(cases, c20Case{Runs: R, Gens: G, SolvedAt: solved, Observer: obs, Fault: c20Fault{Kind: "none"}, Prealloc: 2})
 				}
 				// every fault position
 				for r := 0; r < R; r++ {
@@ -71,6 +77,8 @@ func c20Enumerate(tier string) []c20Case {
 								cases = append(cases, c20Case{Runs: R, Gens: G, SolvedAt: solved, Observer: obs, Parallel: par, Fault: c20Fault{"cancel_in_eval", r, g}})
 								if g != solved[r] {
 									cases = append(cases, c20Case{Runs: R, Gens: G, SolvedAt: solved, Observer: obs, Parallel: par, Fault: c20Fault{"cancel_mid_epoch", r, g}})
+								} else {
+									cases = append(cases, c20Case{Runs: R, Gens: G, SolvedAt: solved, Observer: obs, Parallel: par, Fault: c20Fault{"eval_error_solved", r, g}})
 								}
 							}
 							cases = append(cases, c20Case{Runs: R, Gens: G, SolvedAt: solved, Observer: true, Parallel: par, Fault: c20Fault{"cancel_in_epoch_evaluated", r, g}})
@@ -93,16 +101,16 @@ func init() {
 		ID: "C20", Level: "fault_enumeration", DesignRef: "DESIGN.md section 4 C20",
 		Rule: "enumerated: NumRuns 1..3 x NumGenerations 1..4 (quick) / 1..4 x 1..4 (thorough) x every solved pattern (per trial: solved at " +
 			"generation g or never) x {observer, nil} x {sequential, parallel}, and on top of every pattern every single fault: evaluator " +
-			"error at every evaluated (trial, generation), cancellation from inside the evaluator at every (trial, generation), from each " +
+			"error at every evaluated (trial, generation) - also together with the solved flag in the generation that is reported solved -, cancellation from inside the evaluator at every (trial, generation), from each " +
 			"observer callback (TrialRunStarted, EpochEvaluated, TrialRunFinished) and in the middle of the epoch that follows an " +
 			"evaluation (ReproduceStart hook). The recorded call log of the instrumented evaluator / observer is checked by a trace " +
-			"checker of the protocol. evaluations = Execute runs. A case is non-trivial if it has >= 2 trials or a fault; all cases are distinct.",
+			"checker of the protocol. evaluations = Execute runs. Fault-free patterns are also run on an Experiment whose Trials are pre-allocated and on one reused after a longer run. A case is non-trivial if it has >= 2 trials or a fault; all cases are distinct.",
 		Assumptions: []string{"population size 6..12, XOR start genome; the evaluator assigns fitness and fills the generation statistics as the shipped evaluators do"},
 		Cases:       func(tier string) int { return len(c20Enumerate(tier)) },
 		Run:         runC20,
 		Exhaustive:  true,
 		Required: []string{"cases.none", "cases.eval_error", "cases.cancel_in_eval", "cases.cancel_in_epoch_evaluated", "cases.cancel_in_trial_started",
-			"cases.cancel_in_trial_finished", "cases.cancel_mid_epoch", "cases.parallel", "cases.no_observer", "trials.solved", "trials.unsolved", "canceled.returned"},
+			"cases.cancel_in_trial_finished", "cases.cancel_mid_epoch", "cases.parallel", "cases.no_observer", "cases.eval_error_solved", "cases.trials_preallocated", "cases.experiment_reused_after_longer_run", "trials.solved", "trials.unsolved", "canceled.returned"},
 	})
 }
 
@@ -150,6 +158,11 @@ func (rec *c20Recorder) GenerationEvaluate(ctx context.Context, pop *genetics.Po
 	defer rec.mu.Unlock()
 	r, g := epoch.TrialId, epoch.Id
 	rec.add(c20Event{"eval", r, g})
+	if r < 0 || r >= rec.cs.Runs {
+		// more trials than configured: the trace check reports it; nothing below may index by this trial
+		rec.problems = append(rec.problems, fmt.Sprintf("trial %d is evaluated although only %d runs are configured", r, rec.cs.Runs))
+		return nil
+	}
 	rec.lastEval = [2]int{r, g}
 	set := map[*genetics.Organism]bool{}
 	for _, o := range pop.Organisms {
@@ -203,6 +216,10 @@ func (rec *c20Recorder) GenerationEvaluate(ctx context.Context, pop *genetics.Po
 		epoch.WinnerEvals = (g + 1) * len(pop.Organisms)
 	}
 	epoch.FillPopulationStatistics(pop)
+	if f.Kind == "eval_error_solved" && f.R == r && f.G == g {
+		// the winner was found, but the evaluator fails afterwards (e.g. while storing its results)
+		return errC20Boom
+	}
 	if f.Kind == "cancel_in_eval" && f.R == r && f.G == g {
 		rec.doCancel()
 	}
@@ -299,6 +316,18 @@ func runC20(c *Ctx, idx int) {
 		}
 	}
 	exp := experiment.Experiment{Id: idx}
+	staleId := 1000
+	switch cs.Prealloc {
+	case 1:
+		exp.Trials = make(experiment.Trials, cs.Runs)
+		c.Count("cases.trials_preallocated", 1)
+	case 2:
+		exp.Trials = make(experiment.Trials, cs.Runs+2)
+		for i := range exp.Trials {
+			exp.Trials[i] = experiment.Trial{Id: staleId + i}
+		}
+		c.Count("cases.experiment_reused_after_longer_run", 1)
+	}
 	var observer experiment.TrialRunObserver
 	if cs.Observer {
 		observer = rec
@@ -340,7 +369,7 @@ func runC20(c *Ctx, idx int) {
 			fail("trace", "observed call sequence %v differs from the protocol %v", got, want)
 			return
 		}
-	case "eval_error":
+	case "eval_error", "eval_error_solved":
 		if runErr != errC20Boom && !errors.Is(runErr, errC20Boom) {
 			fail("error-not-returned", "evaluator error at (%d,%d) was not returned to the caller: %v", f.R, f.G, runErr)
 			return
@@ -408,9 +437,16 @@ func runC20(c *Ctx, idx int) {
 			completed = got[len(got)-1].R
 		}
 	}
-	if runErr == nil && len(exp.Trials) != cs.Runs {
+	if runErr == nil && len(exp.Trials) != cs.Runs && cs.Prealloc != 2 {
 		fail("trials-recorded", "%d trials recorded for %d runs", len(exp.Trials), cs.Runs)
 		return
+	}
+	if cs.Prealloc == 2 {
+		// the entries beyond the configured number of trials are none of this run's business
+		if len(exp.Trials) != cs.Runs+2 || exp.Trials[cs.Runs].Id != staleId+cs.Runs || exp.Trials[cs.Runs+1].Id != staleId+cs.Runs+1 {
+			fail("trials-recorded", "a run of %d trials touched the entries of Experiment.Trials beyond them", cs.Runs)
+			return
+		}
 	}
 	for r := 0; r < completed && r < len(exp.Trials); r++ {
 		evaluated := 0
